@@ -33,6 +33,7 @@
 #include <cstdio>
 #include <cstdlib>
 #include <cstring>
+#include <execinfo.h>
 #include <fcntl.h>
 #include <fstream>
 #include <map>
@@ -258,10 +259,27 @@ static void thread_main(int t, ThreadSpec spec)
   }
 }
 
+/** diagnostics only: an abort that is not the scripted signal leaves its stack on stderr (kept in the replay file).
+    Scripts that start with the signal handler replace this for SIGABRT; the message of assert/terminate/malloc is
+    on stderr in every case. */
+static void on_unexpected_abort(int sig)
+{
+  static char const msg[] = "h4_exit: SIGABRT in the child, stack:\n";
+  ssize_t r = write(2, msg, sizeof(msg) - 1);
+  (void)r;
+  void* frames[48];
+  int n = backtrace(frames, 48);
+  backtrace_symbols_fd(frames, n, 2);
+  signal(sig, SIG_DFL);
+  raise(sig);
+}
+
 static int run(Case const& c, std::string const& scratch, int fd)
 {
   report_fd = fd;
   prctl(PR_SET_PDEATHSIG, SIGKILL);
+  setenv("LIBC_FATAL_STDERR_", "1", 1);   // glibc's own fatal messages (malloc checks) go to stderr, not /dev/tty
+  signal(SIGABRT, on_unexpected_abort);
   log_path = scratch + "/c" + c.id + ".log";
   {
     // keep the library's own diagnostics out of the canonical output
@@ -304,12 +322,27 @@ static int run(Case const& c, std::string const& scratch, int fd)
       thr[i] = new std::thread(thread_main, static_cast<int>(i) + 1, c.threads[i]);
   };
 
-  // a thread that is still inside a log call while exit() runs the static destructors races with the destruction of
-  // the library's singletons (true of any exit() in a threaded program): the `c` threads log through stop()/start()
-  // and through crashes, but are told to pause before a path that ends in exit()
+  // exit() destroys the library's singletons (LoggerManager, ThreadContextManager, the sinks) while other threads keep
+  // running. A thread that is then still inside a quill call — a log statement, its first call (which registers its
+  // context), or its own exit (which invalidates the context) — races with that destruction: undefined behaviour of
+  // any exit() with such threads ([basic.start.term]), seen here as rare heap-corruption aborts / hangs under load
+  // (`malloc_consolidate(): unaligned fastbin chunk` in ~FileSink <- ~LoggerManager with a late-scheduled thread).
+  // So before every path that ends in exit() — return from main, exit(), exit from a thread, SIGINT/SIGTERM through
+  // the handler — all extra threads are brought to rest: `f` threads have ended and are joined, `a` threads have
+  // finished their statements (they stay alive, parked outside the library), `c` threads have stopped logging.
+  // Crashes (death by signal, no destructors) and stop()/start() still happen with threads in mid-flight.
+  auto wait_threads = [&]()
+  {
+    if (!threads_started) return;
+    for (size_t i = 0; i < c.threads.size(); ++i)
+      while (!phase_done[i + 1].load()) std::this_thread::sleep_for(std::chrono::microseconds{100});
+    for (size_t i = 0; i < c.threads.size(); ++i)
+      if (c.threads[i].mode == 'f' && thr[i] && thr[i]->joinable()) thr[i]->join();
+  };
   auto quiesce_threads = [&]()
   {
     quiesce.store(1);
+    wait_threads();
     for (size_t i = 0; i < c.threads.size(); ++i)
       if (c.threads[i].mode == 'c' && threads_started)
         while (!quiet[i + 1].load()) std::this_thread::sleep_for(std::chrono::microseconds{100});
@@ -326,13 +359,7 @@ static int run(Case const& c, std::string const& scratch, int fd)
     else if (op[0] == 'L') { int n = atoi(op.c_str() + 1); for (int i = 0; i < n; ++i) log_one(0); }
     else if (op == "F") { logger->flush_log(); }
     else if (op[0] == 'Z') { std::this_thread::sleep_for(std::chrono::milliseconds{atoi(op.c_str() + 1)}); }
-    else if (op == "W")
-    {
-      for (size_t i = 0; i < c.threads.size(); ++i)
-        while (!phase_done[i + 1].load()) std::this_thread::sleep_for(std::chrono::microseconds{100});
-      for (size_t i = 0; i < c.threads.size(); ++i)
-        if (c.threads[i].mode == 'f' && thr[i] && thr[i]->joinable()) thr[i]->join();
-    }
+    else if (op == "W") { wait_threads(); }
     else if (op == "X")
     {
       bool was_running = quill::Backend::is_running();
@@ -751,7 +778,7 @@ int main(int argc, char** argv)
       std::ifstream ein(scratch + "/c" + c.id + ".err");
       std::string ln, all;
       while (std::getline(ein, ln))
-        if (ln.find("Allocated a new SPSC queue") == std::string::npos && all.size() < 600) all += ln + " | ";
+        if (ln.find("Allocated a new SPSC queue") == std::string::npos && all.size() < 3000) all += ln + " | ";
       if (!all.empty()) printf("STDERR case=%s %s\n", c.id.c_str(), all.c_str());
     }
   }
